@@ -1,7 +1,7 @@
 #!/bin/bash
 # usage: tools/mutant.sh <patch.diff> <ID> [tier]   -- apply a seeded change to /repo, run the check, undo it
 set -u
-patch=$1; id=$2; tier=${3:-quick}
+patch=$(realpath $1); id=$2; tier=${3:-quick}
 cd /repo || exit 2
 if ! git apply --check "$patch" 2>/dev/null; then echo "PATCH DOES NOT APPLY: $patch"; exit 3; fi
 git apply "$patch"
